@@ -686,6 +686,33 @@ pub fn generate(seed: u64, knobs: &Knobs) -> C10Scenario {
                 is_removal = true;
                 new_ops.push(Op::RemoveDir { path: dir });
             }
+            66..=70 if sim && !world.input_is_file && rh.chance(1, 3) => {
+                // rename a directory (requirers keep their now dangling require texts)
+                let dirs = world.dirs_with_sources();
+                if dirs.is_empty() {
+                    continue;
+                }
+                let dir = rh.pick(&dirs).clone();
+                let prefix = format!("{}/", dir);
+                if protected.iter().any(|p| p.starts_with(&prefix))
+                    || (keep_required && is_required(&world, &dir))
+                    || world.data.iter().any(|d| d.0.starts_with(&prefix))
+                    || world.aliases.iter().any(|a| a.dir.starts_with(&dir) || a.target.starts_with(&dir))
+                {
+                    continue;
+                }
+                let to = gen::join(gen::parent(&dir), &format!("moved{}", world.next_id));
+                world.next_id += 1;
+                if world.all_lua().iter().any(|s| s.path.starts_with(&format!("{}/", to))) {
+                    continue;
+                }
+                for s in world.sources.iter_mut() {
+                    if s.path.starts_with(&prefix) {
+                        s.path = format!("{}/{}", to, &s.path[prefix.len()..]);
+                    }
+                }
+                new_ops.push(Op::Rename { from: dir, to });
+            }
             66..=70 => {
                 // rename a file
                 if world.input_is_file || world.sources.is_empty() || !sim {
